@@ -2,6 +2,7 @@ import Gql.Proofs.LexerBasic
 import Gql.Proofs.LexerGrammar
 import Gql.Proofs.LexerBlock
 import Gql.Proofs.GapReplace
+import Gql.Proofs.StripProofs
 import Gql.Proofs.SpecLex
 import Gql.Proofs.C09Misc
 /-!
@@ -16,10 +17,12 @@ items only, every token is the longest match at its position, then `<EOF>`").
 
 `sig` maps a model token to (kind, start, stop, value); `kv` keeps kinds and values only.
 
-Status: clause 1 (lexer = grammar) and the gap clause are proved for every text and every token
-class (Ignored, Punctuator, Name, IntValue, FloatValue, StringValue with the three escape forms
-and the surrogate-pair rule, BlockString with `BlockStringValue()`).  Statements that are only
-partly proved keep their full form as `def …_full : Prop`.
+Status: clause 1 (lexer = grammar), the gap clause and clause 3 (gap replacement with prefix
+stability) are proved for every text and every token class (Ignored, Punctuator, Name, IntValue,
+FloatValue, StringValue with the three escape forms and the surrogate-pair rule, BlockString with
+`BlockStringValue()`).  `strip_tokens` / `strip_idem` are proved for source texts made of Unicode
+scalar values (`_partial`; the full statements, which also cover texts with surrogate pairs, are
+kept as `def …_full : Prop`).
 -/
 namespace Gql.Props.C09
 open Gql Gql.Text Gql.Spec.Lex
@@ -192,6 +195,44 @@ def strip_tokens_full : Prop :=
 /-- FULL STATEMENT: stripping is idempotent. -/
 def strip_idem_full : Prop :=
   ∀ s out, stripIgnoredCharacters s = .ok out → stripIgnoredCharacters out = .ok out
+
+/-- `strip_tokens`, proved for every source text made of Unicode scalar values (the
+specification's SourceCharacter): the stripped text lexes, and to the same kinds and values
+(block strings are re-printed minimised and compared by value).  Missing for the full statement:
+texts that contain surrogate code points (the block-string print/lex round trip of C08 is stated
+for scalar values). -/
+theorem strip_tokens_partial (s out : List Nat) (ts : List Token) (hs : ∀ c ∈ s, isScalar c = true)
+    (h : stripIgnoredCharacters s = .ok out) (hl : lexAll s = .ok ts) :
+    ∃ ts', lexAll out = .ok ts' ∧ kv (sig ts') = kv (sig ts) := by
+  obtain ⟨out', ts', h1, h2, h3, _⟩ := strip_correct s hs ts hl
+  rw [h] at h1
+  have : out = out' := Out.ok.inj h1
+  subst this
+  exact ⟨ts', h2, h3⟩
+
+/-- `strip_idem`, proved for every source text made of Unicode scalar values: stripping the
+stripped text returns it unchanged.  Missing: as for `strip_tokens_partial`. -/
+theorem strip_idem_partial (s out : List Nat) (hs : ∀ c ∈ s, isScalar c = true)
+    (h : stripIgnoredCharacters s = .ok out) : stripIgnoredCharacters out = .ok out := by
+  have hnc := (strip_rejects s).2
+  cases hl : lexAll s with
+  | ok ts =>
+    obtain ⟨out', ts', h1, _, _, h4⟩ := strip_correct s hs ts hl
+    rw [h] at h1
+    have : out = out' := Out.ok.inj h1
+    subst this
+    exact h4
+  | err e =>
+    have := ((strip_rejects s).1 e).mp hl
+    rw [h] at this; simp at this
+  | crash c =>
+    exact absurd hl (by
+      intro hc
+      have := Gql.Text.lexAll_no_crash s
+      rw [hc] at this; simp [Out.isCrash] at this)
+
+-- `{ a ...b }` consists of scalar values: the two theorems apply to it
+example : ∀ c ∈ [123, 32, 97, 32, 46, 46, 46, 98, 32, 125], isScalar c = true := by decide
 
 example : (∃ e, lexAll [49, 97] = .err e) := by
   have := (lexer_eq_grammar [49, 97]).2.2.2 (by decide)
